@@ -23,9 +23,9 @@ Definition model_panic_map : list ((string * string * nat) * mp_disposition) := 
      MDead "C12_total_core_nameref_transform (every candidate has a non-empty name: GetValidatedMetadata at load)");
   (("Res/NameRef.v", "set_string_field", 0),
      MDead "C12_total_core_nameref_transform (every candidate has a non-empty name: GetValidatedMetadata at load)");
-  (("Res/Pipeline.v", "ignore_local", 0), MFinding "panic:api/resmap.(*Factory).FromResourceSlice:explicit-may-not-add");
+  (("Res/Pipeline.v", "ignore_local", 0), MFixed "panic:api/resmap.(*Factory).FromResourceSlice:explicit-may-not-add");
   (("Res/ResMapModel.v", "prev_ids", 0), MFinding "panic:api/resource.(*Resource).PrevIds:explicit-number-of-previous");
-  (("Res/ResMapModel.v", "ignore_local", 0), MFinding "panic:api/resmap.(*Factory).FromResourceSlice:explicit-may-not-add");
+  (("Res/ResMapModel.v", "ignore_local", 0), MFixed "panic:api/resmap.(*Factory).FromResourceSlice:explicit-may-not-add");
   (("Res/Resource.v", "prev_ids", 0), MFinding "panic:api/resource.(*Resource).PrevIds:explicit-number-of-previous");
   (("Res/Selector.v", "resource_prev_ids", 0), MFinding "panic:api/resource.(*Resource).PrevIds:explicit-number-of-previous");
   (("Yaml/Walk.v", "append_list_node", 0), MDead "C12_merge2_no_panic / C12_merge3_no_panic (no hypothesis)")
@@ -48,5 +48,8 @@ Definition mp_finding_classes : list string :=
   flat_map (fun e => match snd e with MFinding c => [c] | _ => [] end) model_panic_map.
 Definition mp_fixed_classes : list string :=
   flat_map (fun e => match snd e with MFixed c => [c] | _ => [] end) model_panic_map.
+(* entries whose producer no longer exists. An MFixed entry may outlive its producer: the owner of the
+   model removes the Panic branch when the model follows the repair, in its own time *)
 Definition mp_stale (gen : list (string * string * nat)) : list (string * string * nat) :=
-  map fst (filter (fun e => negb (existsb (key_eqb (fst e)) gen)) model_panic_map).
+  map fst (filter (fun e => match snd e with MFixed _ => false | _ => negb (existsb (key_eqb (fst e)) gen) end)
+                  model_panic_map).
